@@ -19,7 +19,7 @@ import weakref
 from collections import Counter
 
 import textx  # noqa
-from textx import metamodel_from_str
+from textx import metamodel_from_file, metamodel_from_str
 from textx.exceptions import TextXError, TextXSemanticError
 from textx.model import get_model, textxerror_wrap
 import textx.scoping.providers as sp
@@ -27,7 +27,7 @@ from textx.scoping import ModelLoader
 
 from ..core import Budget
 from ..dump import dump_error, dump_model
-from ..gen import gen_world, grammar, linecol, walk_model
+from ..gen import gen_world, grammar, grammar_files, linecol, walk_model
 from ..seams import SIMFS
 from .w1_resolve import ScriptedProvider, Scheduler, base_provider, draw_schedule, fixpoint
 
@@ -330,7 +330,13 @@ class Env:
         if self.classes:
             kw["classes"] = self.classes
         # optional: an abstract root rule with a match alternative - a model file may then be a plain number
-        self.mm = metamodel_from_str(("Top: Model | INT;\n" if cfg.get("prim_root") else "") + grammar(), **kw)
+        if cfg.get("grammar_files") and not cfg.get("prim_root"):
+            # the language's grammar spread over several grammar files (main.tx -> mid.tx -> deep.tx)
+            for gp, gt in grammar_files().items():
+                SIMFS.files[gp] = gt
+            self.mm = metamodel_from_file("/sim/g/main.tx", **kw)
+        else:
+            self.mm = metamodel_from_str(("Top: Model | INT;\n" if cfg.get("prim_root") else "") + grammar(), **kw)
         self.snapshot = class_snapshot(self.classes)
         rec = self.rec
         base = base_provider(cfg["family"])
@@ -668,6 +674,7 @@ def draw_cfg(t, prop, nfiles):
         "tools": t.chance(1, 5, "tools"),
         "memo": t.chance(1, 5, "memo"),
         "global_repo": t.chance(1, 3, "global-repo"),
+        "grammar_files": t.chance(1, 5, "grammar-in-several-files"),
         "prim_root": bool(classes) and t.chance(1, 8, "primitive-root-rule"),
         "prim_root_kind": t.pick(["int", "decimal", "tuple", "frozenset"], "primitive-root-kind"),
     }
